@@ -475,6 +475,73 @@ theorem exec_delete (nullsFirst : Bool) (db : Db) (t : Nat) (w : Expr) (td : Tab
     · intro u hu
       rw [← h1, setTable, List.getElem?_set_ne (Ne.symm hu)]
 
+/-- UPDATE as a statement: in the addressed table exactly the rows where the condition is TRUE are rewritten
+    (each to its old value with the SET columns overwritten by the values of the SET expressions on the *old* row,
+    cast to the column types), all other rows and all other tables are untouched, the row count is unchanged and
+    the count reported is the number of rewritten rows -/
+theorem exec_update (nullsFirst : Bool) (db : Db) (t : Nat) (sets : List (Nat × Expr)) (w : Expr) (td : TableDef)
+    (db' : Db) (n : Nat) (ht : db[t]? = some td)
+    (h : execStmt .none nullsFirst db (.update t sets (some w)) = (db', .affected n)) :
+    n = (td.rows.filter (holds td.tys w)).length ∧
+    (∀ u, u ≠ t → db'[u]? = db[u]?) ∧
+    ∃ rows', db'[t]? = some { td with rows := rows' } ∧ rows'.length = td.rows.length ∧
+      ∀ i (hi : i < td.rows.length) (hj : i < rows'.length),
+        (holds td.tys w td.rows[i] = false → rows'[i] = td.rows[i]) ∧
+        (holds td.tys w td.rows[i] = true → ∃ vals : List (Nat × Value),
+          vals.map (·.1) = sets.map (·.1) ∧ rows'[i] = setCols td.rows[i] vals) := by
+  simp only [execStmt, ht] at h
+  split at h
+  · simp at h
+  · rename_i rows' m hu
+    simp only [Prod.mk.injEq, Outcome.affected.injEq] at h
+    obtain ⟨h1, h2⟩ := h
+    subst h2
+    have hspec := update_touches_exactly td.tys w _ td.rows rows' m hu
+    have hlt : t < db.length := by
+      rcases List.getElem?_eq_some_iff.mp ht with ⟨hlt, _⟩; exact hlt
+    refine ⟨hspec.1, ?_, rows', ?_, hspec.2.1, ?_⟩
+    · intro u hu'
+      rw [← h1, setTable, List.getElem?_set_ne (Ne.symm hu')]
+    · rw [← h1, setTable, List.getElem?_set_self hlt]
+      have : db.getD t default = td := by simp [List.getD, ht]
+      rw [this]
+    · intro i hi hj
+      have := hspec.2.2 i hi hj
+      refine ⟨this.2, ?_⟩
+      intro htrue
+      have hassign := this.1 htrue
+      simp only [assignRow] at hassign
+      cases hm : evalSets {} td.tys td.rows[i] sets with
+      | error e => simp [hm] at hassign
+      | ok vals =>
+        simp only [hm, Except.ok.injEq] at hassign
+        exact ⟨vals, evalSets_fst _ _ _ _ hm, hassign.symm⟩
+
+/-- INSERT appends the given rows (each value cast to its column type) to the addressed table and reports their
+    number; nothing else changes -/
+theorem exec_insert (nullsFirst : Bool) (db : Db) (t : Nat) (rows : List (List Expr)) (td : TableDef)
+    (db' : Db) (n : Nat) (ht : db[t]? = some td)
+    (h : execStmt .none nullsFirst db (.insert t rows) = (db', .affected n)) :
+    n = rows.length ∧ (∀ u, u ≠ t → db'[u]? = db[u]?) ∧
+    ∃ newRows, newRows.length = rows.length ∧ db'[t]? = some { td with rows := td.rows ++ newRows } := by
+  simp only [execStmt, ht] at h
+  split at h
+  · simp at h
+  · split at h
+    · simp at h
+    · rename_i newRows hn
+      simp only [Prod.mk.injEq, Outcome.affected.injEq] at h
+      obtain ⟨h1, h2⟩ := h
+      have hlen := (mapE_ok _ _ _ hn).1
+      have hlt : t < db.length := by
+        rcases List.getElem?_eq_some_iff.mp ht with ⟨hlt, _⟩; exact hlt
+      refine ⟨by rw [← h2, hlen], ?_, newRows, hlen, ?_⟩
+      · intro u hu'
+        rw [← h1, setTable, List.getElem?_set_ne (Ne.symm hu')]
+      · rw [← h1, setTable, List.getElem?_set_self hlt]
+        have : db.getD t default = td := by simp [List.getD, ht]
+        rw [this]
+
 /-! ## Witnesses: each defect flag breaks one of the laws above on a concrete input -/
 
 /-- the witness table: (1, 10), (2, NULL), (3, 30) -/
